@@ -6,9 +6,9 @@ MUTANTS = [
     (
         "ack-before-checksum-test",
         P,
-        "            response = SecsIBlock.decode(data)\n\n            if response is None:\n                self._connection.send_data(bytes([self.NAK]))\n                return\n\n"
+        "            if response is None:\n                self._connection.send_data(bytes([self.NAK]))\n                return\n\n"
         "            # redirect message to hsms handler\n            self._thread.queue_block(self, response)\n\n            self._connection.send_data(bytes([self.ACK]))",
-        "            self._connection.send_data(bytes([self.ACK]))\n\n            response = SecsIBlock.decode(data)\n\n            if response is None:\n                self._connection.send_data(bytes([self.NAK]))\n                return\n\n"
+        "            self._connection.send_data(bytes([self.ACK]))\n\n            if response is None:\n                self._connection.send_data(bytes([self.NAK]))\n                return\n\n"
         "            # redirect message to hsms handler\n            self._thread.queue_block(self, response)",
     ),
     ("block-read-one-byte-short", P, "data = self._receive_buffer.wait_for(length + 3)", "data = self._receive_buffer.wait_for(length + 2)"),
